@@ -7,7 +7,7 @@ import ast
 from ..cfg import CFG
 from ..model import FuncInfo, Repo
 from ..report import Report
-from ..util import AnalysisError, call_name, chain, names_loaded, norm, short, walk_body
+from ..util import parent_map, AnalysisError, call_name, chain, names_loaded, norm, short, walk_body
 from .c02 import _is_zero_bytes_times, node_calls
 from .c04 import calculator_rule
 
@@ -39,8 +39,20 @@ def member_seek_rule(repo: Repo, rep: Report, rid: str) -> None:
         norm(priv[0].value.args[0].args[0]) == "cls.size"
     rep.check(ok, rid, f"{fi.key}:private-buffer", "fixed-size union: BytesIO(stream.read(cls.size))",
               "fixed-size unions no longer consume exactly cls.size bytes into a private buffer", fi.loc())
+    read_nodes = {n.id for n, _ in reads}
+    rep.check(lp.id not in g.reachable(lp.id, first_edge="loop", avoid=read_nodes, skip_exc=True), rid, f"{fi.key}:every-member",
+              "every iteration of the member loop parses the member from the buffer",
+              "an iteration of the member loop can finish without parsing the member (a 'continue' above the read): that member's value is then not "
+              "the result of parsing its type from the union's bytes", fi.loc(lp.ast))
     # the static _read consumes cls.size bytes exactly once
     rd = repo.func("types/structure.py", "UnionMetaType._read")
+    rstream = rd.params[1]
+    tells = {norm(s_.targets[0]) for s_ in walk_body(rd.node.body) if isinstance(s_, ast.Assign) and norm(s_.value) == f"{rstream}.tell()"}
+    moves = [c for c in walk_body(rd.node.body) if isinstance(c, ast.Call) and call_name(c) == "seek" and norm(c.func.value) == rstream]
+    stray = [c for c in moves if not (len(c.args) == 1 and norm(c.args[0]) in tells)]
+    rep.check(not stray, rid, f"{rd.key}:no-extra-seek", "the caller's stream is only rewound to the recorded start (dynamic unions), never moved otherwise",
+              f"UnionMetaType._read moves the caller's stream with '{short(stray[0], 70) if stray else ''}': a union then consumes more (or less) than its size "
+              "and whatever is parsed next is read from the wrong bytes", rd.loc(stray[0]) if stray else rd.loc())
     sized = [c for c in walk_body(rd.node.body) if isinstance(c, ast.Call) and call_name(c) == "read" and c.args and norm(c.args[0]) == "cls.size"]
     rep.check(len(sized) == 1, rid, f"{rd.key}:consume", "static union consumes cls.size bytes", f"static union reads cls.size bytes {len(sized)} times", rd.loc())
 
@@ -203,6 +215,27 @@ def size_rule(repo: Repo, rep: Report, rid: str) -> None:
     exp = [s for s in walk_body(fi.node.body) if isinstance(s, ast.Assign) and "len(cls)" in norm(s.value)]
     pads = [c for c in walk_body(fi.node.body) if isinstance(c, ast.Call) and call_name(c) == "write" and c.args and _is_zero_bytes_times(c.args[0])]
     rep.check(bool(exp) and bool(pads), rid, f"{fi.key}:pad", "pads to offset + len(cls) with zeros", "union writer no longer pads to len(cls) with zeros", fi.loc())
+    from ..boolalg import Formula
+
+    calc = repo.func("types/structure.py", "UnionMetaType._calculate_size_and_offsets")
+    flag = calc.params[2] if len(calc.params) > 2 else "align"
+    pm = parent_map(calc.node)
+    ups = [x for x in walk_body(calc.node.body) if isinstance(x, (ast.AugAssign, ast.Assign)) and any(
+        isinstance(b_, ast.BinOp) and isinstance(b_.op, ast.BitAnd) and any(isinstance(u, ast.UnaryOp) and isinstance(u.op, ast.USub) for u in ast.walk(b_)) for b_ in ast.walk(x.value))]
+    okpad = bool(ups)
+    why = "no round-up of the union size found"
+    for u in ups:
+        p_, guarded = pm.get(u), False
+        while p_ is not None and p_ is not calc.node:
+            if isinstance(p_, ast.If):
+                f_ = Formula(p_.test, lambda e: "ALIGN" if norm(e) == flag else None)
+                if "ALIGN" in f_.atoms and f_.always({"ALIGN": False}, False):
+                    guarded = True
+            p_ = pm.get(p_)
+        if not guarded:
+            okpad, why = False, f"'{short(u, 50)}' is not guarded by the '{flag}' parameter"
+    rep.check(okpad, rid, f"{calc.key}:tail-padding", f"the size is rounded up to the alignment only when '{flag}' is set",
+              f"union size round-up: {why}: a union defined without alignment must be exactly as large as its largest member", calc.loc(ups[0]) if ups else calc.loc())
     rets = [s for s in walk_body(fi.node.body) if isinstance(s, ast.Return)]
     rep.check(bool(rets) and "tell()" in norm(rets[-1].value), rid, f"{fi.key}:written", "returns the number of bytes written", "union writer return value changed", fi.loc())
 
